@@ -3,7 +3,7 @@ import ast
 
 from ..core import AnalysisError, dotted, walk_no_nested, FuncTypes
 from ..cfg import CFG, cond_guards
-from ..util import tv_eval, calls_in, local_defs, depends_on, const_val, truth_under, names_in, param_names
+from ..util import is_dynamic_differ_call, builder_names, tv_eval, calls_in, local_defs, depends_on, const_val, truth_under, names_in, param_names
 from .. import mergefacts as mf
 from .. import facts
 
@@ -132,10 +132,10 @@ def _run_base(ctx):
         defs = local_defs(fn)
         first = param_names(fn)[0]
         for c in calls_in(fn, nested=False):
-            if isinstance(c.func, ast.Attribute) and c.func.attr == 'patch' and dotted(c.func.value) == 'di' and len(c.args) == 2:
+            if isinstance(c.func, ast.Attribute) and c.func.attr == 'patch' and dotted(c.func.value) in builder_names(fn) and len(c.args) == 2:
                 key = c.args[0]
                 sub = c.args[1]
-                src = depends_on(fn, sub, lambda n: isinstance(n, ast.Call) and isinstance(n.func, ast.Name) and n.func.id == 'diffit', defs)
+                src = depends_on(fn, sub, lambda n: is_dynamic_differ_call(fn, n), defs)
                 ok = False
                 why = 'patch payload does not come from the recursive differ'
                 if src is not None and src.args:
@@ -182,7 +182,7 @@ def _run_base(ctx):
     for fid, need_type in (('nbdime.diffing.generic:diff_lists', False), ('nbdime.diffing.generic:diff_dicts', True)):
         fn = repo.func(fid)
         g = CFG(fn)
-        rec = [c for c in calls_in(fn, nested=False) if isinstance(c.func, ast.Name) and c.func.id == 'diffit']
+        rec = [c for c in calls_in(fn, nested=False) if is_dynamic_differ_call(fn, c)]
         if not rec:
             raise AnalysisError('%s: recursive diffit(...) call not found' % fid)
         for c in rec:
@@ -229,8 +229,8 @@ def _run_base(ctx):
     so = repo.func('nbdime.diffing.notebooks:diff_single_outputs')
     pops = [const_val(c.args[0]) for c in calls_in(so, nested=False) if isinstance(c.func, ast.Attribute) and c.func.attr == 'pop' and c.args]
     patches = [const_val(c.args[0]) for c in calls_in(so, nested=False) if isinstance(c.func, ast.Attribute) and c.func.attr == 'patch' and
-               dotted(c.func.value) == 'di' and c.args]
-    appends = [c for c in calls_in(so, nested=False) if isinstance(c.func, ast.Attribute) and c.func.attr == 'append' and dotted(c.func.value) == 'di']
+               dotted(c.func.value) in builder_names(so) and c.args]
+    appends = [c for c in calls_in(so, nested=False) if isinstance(c.func, ast.Attribute) and c.func.attr == 'append' and dotted(c.func.value) in builder_names(so)]
     # ... or the operands are built without the key: {k: v for k, v in x.items() if k != '<key>'}
     n_comp = 0
     for dc in walk_no_nested(so):
@@ -256,7 +256,7 @@ def _ok_result(repo, cg, fn, e, defs, differset, seen):
         fts = [t[1] for t in ts if t[0] == 'func']
         if fts and all(t in differset for t in fts):
             return True
-        if isinstance(e.func, ast.Name) and e.func.id in ('diffit', 'inner_differ'):
+        if is_dynamic_differ_call(fn, e):
             return True
         if any(t[0] == 'ext' and t[1].startswith('nbdime') for t in ts):
             return False
